@@ -358,6 +358,29 @@ func (cx *Ctx) keyPrefix(v ssa.Value, fr *frame, depth int, out map[string]bool)
 				}
 			}
 		}
+		// no frame: the key prefix is a parameter of a helper (iterateQueue(ctx, prefix, …));
+		// take the union over the arguments at all static call sites
+		if depth < 8 {
+			fn := x.Parent()
+			idx := -1
+			for i, p := range fn.Params {
+				if p == x {
+					idx = i
+				}
+			}
+			n := 0
+			for _, cs := range cx.CallersOf(fn) {
+				cc := cs.Site.Common()
+				if cc.IsInvoke() || cc.StaticCallee() != fn || idx < 0 || idx >= len(cc.Args) {
+					continue
+				}
+				n++
+				cx.keyPrefix(cc.Args[idx], nil, depth+2, out)
+			}
+			if n > 0 {
+				return
+			}
+		}
 		out["param:"+x.Name()] = true
 	case *ssa.Extract:
 		out["?extract"] = true
